@@ -240,6 +240,21 @@ func runC04(r *Run) {
 				}
 			}
 			r.atLeast("registrations in the prefix-list loops", nl, 4)
+			// … for every element of the list: the mount of a sub-app does not end the loop over the prefixes
+			nmnt := 0
+			for _, m := range []string{"(*Group).Use", "(*App).Use"} {
+				f := r.Fn("", m)
+				for _, c := range callsIn(f, false) {
+					if !strings.HasSuffix(c.Name, "Group).mount") && !strings.HasSuffix(c.Name, "App).mount") {
+						continue
+					}
+					nmnt++
+					_, again := reach(pointAfter(c.Instr), func(in ssa.Instruction) bool { return in == c.Instr }, nil, nil)
+					r.check(again != nil, fmt.Sprintf("%s:mount#%d:every-listed-prefix", m, nmnt), r.pos(c.Instr), "after a mount the loop goes on to the next prefix of the list",
+						m+" returns after mounting the sub-app on the first prefix of the list: Use([]string{\"/p\", \"/q\"}, sub) answers /p/… and 404s /q/…, while handlers registered with the same list (or groups spelled out) cover both")
+				}
+			}
+			r.atLeast("mount calls in the prefix-list loops", nmnt, 2)
 			// the re-prefixed pattern is built from the route's raw registered pattern (Route.Path), like a group registration
 			// would see it — not from the sub-app's already normalised Route.path
 			pre := r.Fn("", "(*App).addPrefixToRoute")
